@@ -45,7 +45,6 @@ class Layer(BaseObject):
     **This object posts the following notifications:**
 
     - Layer.Changed
-    - Layer.GlyphsChanged
     - Layer.GlyphChanged
     - Layer.GlyphWillBeAdded
     - Layer.GlyphAdded
